@@ -15,9 +15,9 @@ import (
 type Sort int
 
 const (
-	Bool  Sort = 0
-	F64   Sort = -64
-	F32   Sort = -32
+	Bool Sort = 0
+	F64  Sort = -64
+	F32  Sort = -32
 )
 
 func (s Sort) String() string {
@@ -75,8 +75,8 @@ const (
 	OpFpLe
 	OpFpEq // IEEE equality
 	OpFpIsNaN
-	OpSToFp  // signed bv -> fp (RNE)
-	OpUToFp  // unsigned bv -> fp (RNE)
+	OpSToFp   // signed bv -> fp (RNE)
+	OpUToFp   // unsigned bv -> fp (RNE)
 	OpFpToSbv // fp -> signed bv (RTZ), width = Sort
 	OpFpToUbv
 	OpFpToFp // fp -> fp of other precision (RNE)
